@@ -67,6 +67,7 @@ class Sim(object):
         self.n_graphs = cfg.randint(*self.prof["graphs"])
         self.verbose_share = cfg.choice([0.0, self.prof["verbose_share"], 0.8])
         self.clock0 = cfg.choice(CLOCKS)
+        self.columns = cfg.choice([None, None, "80", "200", "10", "100000", "0"])   # terminal width the process sees
         self.mixed_k = cfg.random() < 0.7
         self.k0 = weighted(cfg, self.prof["k_weights"])
         self.world = B.World(prop)
@@ -85,7 +86,7 @@ class Sim(object):
 
     def config(self):
         return {"max_ops": self.max_ops, "n_graphs": self.n_graphs, "verbose_share": self.verbose_share,
-                "clock": self.clock0, "mixed_k": self.mixed_k, "k0": self.k0}
+                "clock": self.clock0, "mixed_k": self.mixed_k, "k0": self.k0, "columns": self.columns}
 
     def do(self, op):
         rec = B.execute(op, self.world, self.ctx)
@@ -398,9 +399,12 @@ class Sim(object):
             rng.choice([1, 2, 3, 3, 6] if self.prop == "C20" else [1, 2, 3])
         seed = weighted(rng, [(None, 2), (0, 1), (1, 1), (2021, 2), (2 ** 32 - 1, 1), (rng.getrandbits(20), 4),
                               (rng.choice([7, 11, 13]), 4)])
-        return {"op": "CALL", "fn": "create_random_shuffles", "verbose": self.verbose(),
-                "store": {"": {"kind": "table", "name": self.fresh_name("T"), "k": k}},
-                "args": {"observed_length": ["lit", k], "random_seed": ["lit", seed]}}
+        op = {"op": "CALL", "fn": "create_random_shuffles", "verbose": self.verbose(),
+              "store": {"": {"kind": "table", "name": self.fresh_name("T"), "k": k}},
+              "args": {"observed_length": ["lit", k], "random_seed": ["lit", seed]}}
+        if seed is not None and rng.random() < 0.2:
+            op["np_args"] = ["random_seed"]          # seeds drawn from a numpy array are numpy integers
+        return op
 
     def client_trimmer(self):
         rng = self.rng
@@ -453,6 +457,7 @@ class Sim(object):
     def run(self):
         seams.begin_run(stream(self.seed, "rngseam"), "steady", None)
         self.log.append({"seed": self.seed, "prop": self.prop, "tier": self.tier, "config": self.config()})
+        self.do({"op": "ENV", "columns": self.columns})
         if self.prop == "C18" and self.seed % 100 == 0:
             self.do({"op": "DIGITMAP"})
         if self.ctx.violation is None:
